@@ -5,6 +5,9 @@
 (* The environment is a real loopback server that follows a fault script:  *)
 (* it answers the first `answered` requests of the exchange and then       *)
 (*   "silent"  says nothing more,                                          *)
+(*   "chalsilent" (Valve) answers every further request that carries no    *)
+(*             valid challenge with a challenge and says nothing after the *)
+(*             challenged request: it stops in the middle of a unit,       *)
 (*   "refuse"  (TCP) is not listening at all,                              *)
 (*   "stall"   (TCP) accepts the connection and never writes,              *)
 (*   "close"   (TCP) accepts and closes at once,                           *)
@@ -34,7 +37,8 @@ Protos ==
    eco |-> [tr |-> "http", units |-> 1]]
 Names == DOMAIN Protos
 
-Modes(p) == IF Protos[p].tr = "udp" THEN {"silent"} ELSE {"refuse", "stall", "close", "blackhole"}
+Modes(p) == IF p = "valve" THEN {"silent", "chalsilent"}
+            ELSE IF Protos[p].tr = "udp" THEN {"silent"} ELSE {"refuse", "stall", "close", "blackhole"}
 \* which timeouts the caller configured: "r" = connect and read (write left unset), "rw" = connect, read and write.
 \* (A read timeout left unset means "block": not a bounded case.)
 \* "default" = the caller passes no settings at all: the documented defaults (4 s each) are the configured timeouts
@@ -42,7 +46,7 @@ TCs(p) == IF Protos[p].tr = "udp" THEN {"r"} ELSE {"r", "rw", "default"}
 Cases == UNION {[p : {p}, ipv : {4, 6}, answered : 0 .. (Protos[p].units - 1), mode : Modes(p), r : Retries, tc : TCs(p)] : p \in Names}
 \* the default timeouts make a case last seconds: they are exercised where they matter (one connect that never completes,
 \* one read that never returns), on one address family, without retries
-CaseOk(x) == /\ (x.mode # "silent" => x.answered = 0)
+CaseOk(x) == /\ (x.mode \notin {"silent", "chalsilent"} => x.answered = 0)
              /\ (x.tc = "default" => (x.mode \in {"blackhole", "stall"} /\ x.ipv = 4 /\ x.r = 0 /\ x.p \in {"java", "eco"}))
              /\ (x.mode = "blackhole" => (x.ipv = 4 /\ x.r = 0 /\ x.p \in {"java", "eco"}))
 \* the timeout that bounds one blocking step of the case, in milliseconds (T = the harness's explicit setting)
@@ -54,6 +58,12 @@ Units(x) == Protos[x.p].units - x.answered
 \* unreal2's list sections also end with one read that times out by design, even when answered
 Extra(x) == IF x.p = "unreal2" THEN 2 ELSE 0
 B(x) == (IF x.p = "savage2" THEN 1 ELSE x.r + 1) * Units(x) + Extra(x) + (IF Protos[x.p].tr \in {"tcp", "http"} THEN 1 ELSE 0)
+\* requests the server may see (UDP): the answered units, then at most r + 1 attempts of every unit the client still tries (only
+\* the first one when nothing was answered: the query fails there); an attempt that is answered with a challenge sends twice
+\* (the request, the challenged request) - the attempts are not multiplied by one another
+Tried(x) == IF x.answered = 0 THEN 1 ELSE Units(x)
+MaxReqs(x) == IF Protos[x.p].tr # "udp" THEN 0
+              ELSE x.answered + (IF x.p = "savage2" THEN 1 ELSE x.r + 1) * Tried(x) * (IF x.mode = "chalsilent" THEN 2 ELSE 1)
 \* expected outcome class
 Class(x) ==
   CASE Protos[x.p].tr = "http" /\ x.mode \in {"refuse", "close"} -> "anyerror"   \* the HTTP client reports every transport failure as a send failure
@@ -66,7 +76,7 @@ Class(x) ==
 
 Init == c \in {x \in Cases : CaseOk(x)} /\ done = FALSE
 Step == /\ ~done /\ done' = TRUE /\ UNCHANGED c
-        /\ Emit => PrintT(<<"CASE", ToJson([c |-> c, tr |-> Protos[c.p].tr, b |-> B(c), class |-> Class(c), stepms |-> StepMs(c, 200)])>>)
+        /\ Emit => PrintT(<<"CASE", ToJson([c |-> c, tr |-> Protos[c.p].tr, b |-> B(c), class |-> Class(c), stepms |-> StepMs(c, 200), maxreqs |-> MaxReqs(c)])>>)
 Spec == Init /\ [][Step]_vars
 
 BPositive == B(c) >= 1
